@@ -14,7 +14,10 @@ def extra(work, v, thorough):
     tf = os.path.join(out, "counter.ndjson")
     res = storelib.validate(work, tf, "counter", module="CounterTrace", cfg="CounterTrace.cfg")
     storelib.report(v, work, "C16", tf, res)
-    return {"counter_states": mc.distinct, "counter_transitions": mc.generated, "concurrent_bursts_validated": res["traces"],
+    # a cache restored by LoadCache: Len / EstimatedSize against the entries its policy tracks (PersistTrace)
+    import persistcheck
+    pres, _ = persistcheck.trace_part(work, v, "C16", 40 if thorough else 8, 0, {})
+    return {"loads_with_len_and_size_compared": pres["loads"], "counter_states": mc.distinct, "counter_transitions": mc.generated, "concurrent_bursts_validated": res["traces"],
             "_states": mc.distinct, "_trans": mc.generated, "_traces": res["traces"]}
 
 PLAN = {
